@@ -201,6 +201,13 @@ class ComposeInfo(productmd.common.MetadataBase):
         self.release.deserialize(data["payload"])
         if self.release.is_layered:
             self.base_product.deserialize(data["payload"])
+        else:
+            # a load replaces what the object held: no base product left
+            # over from a previously loaded (or filled in) layered release
+            self.base_product = BaseProduct(self)
+        # read into a fresh container: the loaded variants replace the ones
+        # the object held instead of being added to them
+        self.variants = Variants(self)
         self.variants.deserialize(data["payload"])
         self.header.set_current_version()
 
@@ -527,6 +534,8 @@ class Release(BaseProduct):
         self.short = data["product"]["short"]
         self.type = data["product"].get("type", "ga").lower()
         self.is_layered = bool(data["product"].get("is_layered", False))
+        # the 0.3 format has no such field; do not keep one from before
+        self.internal = False
 
     def deserialize_1_0(self, data):
         self.name = data[self._section]["name"]
